@@ -191,6 +191,11 @@ func (k Keeper) BurnEdenBoost(ctx sdk.Context, creator sdk.AccAddress, denom str
 
 	k.SetCommitments(ctx, commitments)
 
+	// the burnt amount leaves the chain-wide committed total as well (never below zero)
+	params := k.GetParams(ctx)
+	params.TotalCommitted = params.TotalCommitted.Sub(params.TotalCommitted.Min(sdk.NewCoins(sdk.NewCoin(denom, amount)))...)
+	k.SetParams(ctx, params)
+
 	if k.hooks != nil {
 		err = k.hooks.CommitmentChanged(ctx, creator, sdk.Coins{sdk.NewCoin(denom, amount)})
 		if err != nil {
